@@ -77,7 +77,7 @@ manifest = {
  "hooks": {
    "guard": "uflow_verif",
    "enable": "RUSTFLAGS='--cfg uflow_verif' (set in /verif/sim/.cargo/config.toml; the simulator depends on /repo by path, so every check rebuilds from /repo's working tree)",
-   "baseline_off_cmd": "cd /repo && cargo test --workspace --no-fail-fast --offline",
+   "baseline_off_cmd": "cd /repo && (cargo nextest run --workspace --no-fail-fast --tool-config-file pb:/w/lib/nextest.toml --profile pb --test-threads 8 --offline || cargo test --workspace --no-fail-fast --offline)",
    "source_commits": [c.split()[0] for c in HOOK_COMMITS],
    "add_only": True,
  },
